@@ -1,6 +1,7 @@
 package main
 
 import (
+	"crypto/tls"
 	"encoding/json"
 	"fmt"
 	"net"
@@ -10,6 +11,7 @@ import (
 	"sync"
 
 	"github.com/enbility/ship-go/api"
+	"github.com/enbility/ship-go/hub"
 
 	"verif/harness/internal/vh"
 )
@@ -370,7 +372,38 @@ func inversionReplay(r *vh.Rng) {
 		}
 		rep.mu.Unlock()
 	}
+	// the same with a real hub.Hub as the receiver: what the application's last
+	// VisibleRemoteServicesUpdated shows
+	hubTrials, hubStale, hubIncomplete := 1000, 0, 0
+	for t := 0; t < hubTrials; t++ {
+		m := newManager(own17, "b", "m", "t", "s", nil, "id")
+		l := &vh.Log{}
+		h := hub.NewHub(&vh.FakeReader{L: l}, m, 0, tls.Certificate{}, api.NewServiceDetails(own17))
+		m.VerifSetReport(h)
+		cb := m.VerifResolverCallback()
+		cb(el(1), "n1", "h1", []net.IP{atab17[0]}, 1001, false)
+		cb(el(2), "n2", "h2", []net.IP{atab17[2]}, 1002, false)
+		ok := false
+		for i := 0; i < 200000; i++ {
+			if l.Len() >= 2 {
+				ok = true
+				break
+			}
+			if i > 1000 {
+				sleepShort()
+			}
+		}
+		if !ok {
+			hubIncomplete++
+			continue
+		}
+		calls := l.Take()
+		if calls[len(calls)-1] != "OVisible 2" {
+			hubStale++
+		}
+	}
 	b, _ := json.Marshal(map[string]any{"scenario": "two adds back to back, unserialised receiver", "trials": trials,
-		"last_delivered_report_is_not_the_final_map": inverted, "incomplete": incomplete})
+		"last_delivered_report_is_not_the_final_map": inverted, "incomplete": incomplete,
+		"hub_trials": hubTrials, "hub_last_VisibleRemoteServicesUpdated_is_stale": hubStale, "hub_incomplete": hubIncomplete})
 	_ = os.WriteFile(*side, b, 0o644)
 }
